@@ -495,7 +495,9 @@ def dom_rad(rng, s, kw, geom, n):
 
 
 for _n, _c in (("ED_Solver", 1.0), ("nED_Solver", 3.0), ("Sn_Solver", 25.0), ("ie_Solver", 5.0)):
-    reg(_n, "radshocks.nED_radshocks:" + _n, gen_rad_default, dom_rad, thermo=True, cost=_c)
+    # the Sn and ion-electron solvers stay on their defaults: with another material one construction can take tens of
+    # minutes (seen: > 13 min in a quick run) - C12 drives Sn with the two parameter sets it can afford
+    reg(_n, "radshocks.nED_radshocks:" + _n, gen_rad_default if _n in ("ED_Solver", "nED_Solver") else (lambda rng, geom: dict()), dom_rad, thermo=True, cost=_c)
 
 
 # ---- heat ---------------------------------------------------------------------------------------
